@@ -11,6 +11,12 @@ import Mathlib.Tactic.Linarith
 import Mathlib.Tactic.SplitIfs
 import Resvg.SvgTree.Build
 import Resvg.Props.C03
+import Mathlib.Tactic.Positivity
+import Mathlib.Tactic.NormNum
+import Mathlib.Tactic.Ring
+import Mathlib.Algebra.Order.AbsoluteValue.Basic
+import Resvg.Tree.StrokeGuard
+import Resvg.Generated.StrokeGuard
 
 namespace Resvg.Props.C01
 open Resvg Resvg.SvgTree
@@ -142,5 +148,122 @@ theorem C01_href_iter_terminates (n : Nat) (href : Nat → Option Nat)
     (hh : ∀ a b, href a = some b → b < n) (o : Nat) (ho : o < n) (fuel : Nat) :
     (HrefIter.collect href fuel (HrefIter.start o)).length ≤ n :=
   C03.C03_href_iter_terminates n href hh o ho fuel
+
+/-! ### the size guard in front of the stroker (fix 1f07717): no overflow inside `find_quad_max_curvature` -/
+section StrokeGuard
+open Resvg.Tree
+
+section
+variable (r : Rat → Rat) (e : Rat)
+
+theorem rb (he : 0 ≤ e) (hr : ∀ x, |r x| ≤ (1 + e) * |x|) {x a : Rat} (h : |x| ≤ a) : |r x| ≤ (1 + e) * a :=
+  le_trans (hr x) (mul_le_mul_of_nonneg_left h (by linarith))
+
+theorem quadA_bound (he : 0 ≤ e) (hr : ∀ x, |r x| ≤ (1 + e) * |x|) (L c0 c1 : Rat)
+    (h0 : |c0| ≤ L) (h1 : |c1| ≤ L) : |quadA r c0 c1| ≤ (1 + e) * (2 * L) := by
+  unfold quadA
+  apply rb r e he hr
+  calc |c1 - c0| ≤ |c1| + |c0| := abs_sub _ _
+    _ ≤ 2 * L := by linarith
+
+theorem quadB_bound (he : 0 ≤ e) (hr : ∀ x, |r x| ≤ (1 + e) * |x|) (L c0 c1 c2 : Rat) (hL : 0 ≤ L)
+    (h0 : |c0| ≤ L) (h1 : |c1| ≤ L) (h2 : |c2| ≤ L) : |quadB r c0 c1 c2| ≤ (1 + e) ^ 3 * (4 * L) := by
+  unfold quadB
+  have s1 : |r (c0 - c1)| ≤ (1 + e) * (2 * L) := by
+    apply rb r e he hr
+    calc |c0 - c1| ≤ |c0| + |c1| := abs_sub _ _
+      _ ≤ 2 * L := by linarith
+  have e1 : (1 : Rat) ≤ 1 + e := by linarith
+  have s2 : |r (r (c0 - c1) - c1)| ≤ (1 + e) * ((1 + e) * (3 * L)) := by
+    apply rb r e he hr
+    calc |r (c0 - c1) - c1| ≤ |r (c0 - c1)| + |c1| := abs_sub _ _
+      _ ≤ (1 + e) * (2 * L) + L := by linarith
+      _ ≤ (1 + e) * (2 * L) + (1 + e) * L := by
+          have h2 : 0 ≤ e * L := mul_nonneg he hL
+          have h1 : (1 + e) * L = L + e * L := by ring
+          linarith
+      _ = (1 + e) * (3 * L) := by ring
+  have s3 : |r (r (r (c0 - c1) - c1) + c2)| ≤ (1 + e) * ((1 + e) * ((1 + e) * (4 * L))) := by
+    apply rb r e he hr
+    have hp : 0 ≤ (1 + e) * ((1 + e) * L) := by positivity
+    calc |r (r (c0 - c1) - c1) + c2| ≤ |r (r (c0 - c1) - c1)| + |c2| := abs_add_le _ _
+      _ ≤ (1 + e) * ((1 + e) * (3 * L)) + L := by linarith
+      _ ≤ (1 + e) * ((1 + e) * (3 * L)) + (1 + e) * ((1 + e) * L) := by
+          have h1 : (1 + e) * ((1 + e) * L) = L + (2 * (e * L) + e * (e * L)) := by ring
+          have h2 : 0 ≤ e * L := mul_nonneg he hL
+          have h3 : 0 ≤ e * (e * L) := mul_nonneg he h2
+          linarith
+      _ = (1 + e) * ((1 + e) * (4 * L)) := by ring
+  calc _ ≤ (1 + e) * ((1 + e) * ((1 + e) * (4 * L))) := s3
+    _ = (1 + e) ^ 3 * (4 * L) := by ring
+end
+
+section
+variable (r : Rat → Rat) (e : Rat)
+
+theorem prod_bound (he : 0 ≤ e) (hr : ∀ x, |r x| ≤ (1 + e) * |x|) {u v a b : Rat}
+    (hu : |u| ≤ a) (hv : |v| ≤ b) : |r (u * v)| ≤ (1 + e) * (a * b) := by
+  apply rb r e he hr
+  rw [abs_mul]
+  exact mul_le_mul hu hv (abs_nonneg _) (le_trans (abs_nonneg _) hu)
+
+theorem absOf {L c : Rat} (h1 : -L ≤ c) (h2 : c ≤ L) : |c| ≤ L := abs_le.mpr ⟨h1, h2⟩
+
+/-- every intermediate of `find_quad_max_curvature` is bounded by `32 L² (1+e)^8` for points within `±L` -/
+theorem C01_stroker_quad_intermediates_bounded (he : 0 ≤ e) (hr : ∀ x, |r x| ≤ (1 + e) * |x|) (L : Rat) (hL : 0 ≤ L) (p0 p1 p2 : Pt)
+    (h0 : withinLimit L p0) (h1 : withinLimit L p1) (h2 : withinLimit L p2) :
+    |quadNumer r p0 p1 p2| ≤ (1 + e) ^ 6 * (16 * L ^ 2) ∧ |quadDenom r p0 p1 p2| ≤ (1 + e) ^ 8 * (32 * L ^ 2) := by
+  obtain ⟨a0, a1, a2, a3⟩ := h0
+  obtain ⟨b0, b1, b2, b3⟩ := h1
+  obtain ⟨c0, c1, c2, c3⟩ := h2
+  have x0 := absOf a0 a1; have y0 := absOf a2 a3
+  have x1 := absOf b0 b1; have y1 := absOf b2 b3
+  have x2 := absOf c0 c1; have y2 := absOf c2 c3
+  have ax := quadA_bound r e he hr L _ _ x0 x1
+  have ay := quadA_bound r e he hr L _ _ y0 y1
+  have bx := quadB_bound r e he hr L _ _ _ hL x0 x1 x2
+  have by_ := quadB_bound r e he hr L _ _ _ hL y0 y1 y2
+  have e1 : (0 : Rat) ≤ 1 + e := by linarith
+  constructor
+  · unfold quadNumer
+    rw [abs_neg]
+    have p1 := prod_bound r e he hr ax bx
+    have p2 := prod_bound r e he hr ay by_
+    have s := rb r e he hr (le_trans (abs_add_le _ _) (add_le_add p1 p2))
+    calc _ ≤ _ := s
+      _ = (1 + e) ^ 6 * (16 * L ^ 2) := by ring
+  · unfold quadDenom
+    have p1 := prod_bound r e he hr bx bx
+    have p2 := prod_bound r e he hr by_ by_
+    have s := rb r e he hr (le_trans (abs_add_le _ _) (add_le_add p1 p2))
+    calc _ ≤ _ := s
+      _ = (1 + e) ^ 8 * (32 * L ^ 2) := by ring
+
+/-- with the limit the translator reads off `can_be_stroked` and f32's unit round-off `2^-23` as `e`, the
+    bounds stay below `f32::MAX`: no intermediate overflows, so `numer / denom` is never `inf / inf` -/
+theorem C01_stroke_limit_below_f32_max : (1 + 1 / 2 ^ 23 : Rat) ^ 8 * (32 * (Generated.strokeLimit : Rat) ^ 2) < f32Max := by
+  unfold Generated.strokeLimit f32Max
+  norm_num
+end
+
+/-- the guard is where the translator expects it: `Path::new` filters the stroke before the stroker is
+    used, all four sides of the bounds are compared, and nothing else in the two libraries strokes a path -/
+theorem C01_stroke_guard_in_place :
+    Generated.strokeGuardInstalled = true ∧ Generated.strokeGuardSides = [true, true, true, true] ∧
+    Generated.strokerCallers.length = 1 := by
+  refine ⟨by decide, by decide, by decide⟩
+
+/-- without the guard: the quad `(0,0) (1e20,1e20) (4e20,0)` of findings/C01/huge-quad-stroke.svg has
+    `ax·bx = 2e40`, beyond `f32::MAX`: the product is infinite, `numer` is `inf - inf`, the ratio NaN -/
+theorem C01_unguarded_quad_overflows :
+    f32Max < quadA id 0 (10 ^ 20) * quadB id 0 (10 ^ 20) (4 * 10 ^ 20) ∧
+    ¬ withinLimit (Generated.strokeLimit : Rat) ⟨10 ^ 20, 10 ^ 20⟩ := by
+  constructor
+  · unfold f32Max quadA quadB; norm_num
+  · unfold withinLimit Generated.strokeLimit; norm_num
+
+example : withinLimit (Generated.strokeLimit : Rat) ⟨-5 * 10 ^ 17, 10 ^ 18⟩ := by
+  unfold withinLimit Generated.strokeLimit; norm_num
+end StrokeGuard
 
 end Resvg.Props.C01
